@@ -172,6 +172,91 @@ def translate(src_root):
     return {"new_context": stmts(nc.body), "gdm": stmts(gdm.body)}
 
 
+def dispatch_rules(src_root):
+    """Environment.get_or_select_template as a decision list over the kind of its first argument"""
+    env = ast.parse(open(os.path.join(src_root, "jinja2", "environment.py")).read())
+    cls = [n for n in env.body if isinstance(n, ast.ClassDef) and n.name == "Environment"]
+    fs = [n for n in cls[0].body if isinstance(n, ast.FunctionDef) and n.name == "get_or_select_template"] if cls else []
+    if len(fs) != 1:
+        raise Untranslatable("Environment.get_or_select_template not found")
+    f = fs[0]
+    arg = f.args.args[1].arg
+    body = [st for st in f.body if not (isinstance(st, ast.Expr) and isinstance(st.value, ast.Constant))]
+
+    def action(st):
+        if not (isinstance(st, ast.Return) and st.value is not None):
+            raise Untranslatable("get_or_select_template: not a return: " + ast.unparse(st)[:60])
+        v = st.value
+        if isinstance(v, ast.Name) and v.id == arg:
+            return "AReturnIt"
+        if isinstance(v, ast.Call) and isinstance(v.func, ast.Attribute) and isinstance(v.func.value, ast.Name) \
+                and v.func.value.id == "self" and v.args and isinstance(v.args[0], ast.Name) and v.args[0].id == arg:
+            if v.func.attr == "get_template":
+                return "AGetTemplate"
+            if v.func.attr == "select_template":
+                return "ASelectTemplate"
+        raise Untranslatable("get_or_select_template: action " + ast.unparse(v)[:60])
+
+    def cond(test):
+        if isinstance(test, ast.Call) and isinstance(test.func, ast.Name) and test.func.id == "isinstance" \
+                and len(test.args) == 2 and isinstance(test.args[0], ast.Name) and test.args[0].id == arg:
+            c = test.args[1]
+            names = [c] if isinstance(c, ast.Name) else list(c.elts) if isinstance(c, ast.Tuple) else None
+            if names and all(isinstance(n, ast.Name) for n in names):
+                return "(CIsInstance [%s])" % "; ".join(q(n.id) for n in names)
+        if isinstance(test, ast.Compare) and len(test.ops) == 1 and isinstance(test.ops[0], ast.Is) \
+                and isinstance(test.left, ast.Call) and isinstance(test.left.func, ast.Name) and test.left.func.id == "type" \
+                and len(test.left.args) == 1 and isinstance(test.left.args[0], ast.Name) and test.left.args[0].id == arg \
+                and isinstance(test.comparators[0], ast.Name):
+            return "(CTypeIs %s)" % q(test.comparators[0].id)
+        raise Untranslatable("get_or_select_template: condition " + ast.unparse(test)[:60])
+
+    rules = []
+
+    def walk(stmts, top):
+        for i, st in enumerate(stmts):
+            if isinstance(st, ast.If):
+                if len(st.body) != 1:
+                    raise Untranslatable("get_or_select_template: branch with several statements")
+                rules.append("(%s, %s)" % (cond(st.test), action(st.body[0])))
+                if st.orelse:
+                    d = walk(st.orelse, False)
+                    if d is not None:
+                        if i != len(stmts) - 1:
+                            raise Untranslatable("get_or_select_template: statement after a final else")
+                        return d
+            else:
+                if i != len(stmts) - 1:
+                    raise Untranslatable("get_or_select_template: statement after return")
+                return action(st)
+        if top:
+            raise Untranslatable("get_or_select_template: falls off the end")
+        return None
+    default = walk(body, True)
+    return "[" + "; ".join(rules) + "]", default
+
+
+COQ_DISPATCH = r'''(* regenerated from %(root)s/jinja2/environment.py by gen/imp_translate.py - do not edit *)
+From Coq Require Import List Bool String.
+Import ListNotations.
+From JV Require Import Lib.PyImpDispatch.
+Open Scope string_scope.
+Definition rules : list (cond * action) := %(rules)s.
+Definition default : action := %(default)s.
+Theorem get_or_select_dispatch_eq_model :
+  forallb (fun k => match dispatch rules default k, dispatch_model k with
+                    | AGetTemplate, AGetTemplate | AReturnIt, AReturnIt | ASelectTemplate, ASelectTemplate => true
+                    | _, _ => false end) all_kinds = true.
+Proof. vm_compute. reflexivity. Qed.
+Print Assumptions get_or_select_dispatch_eq_model.
+'''
+
+
+def emit_dispatch(src_root):
+    rules, default = dispatch_rules(src_root)
+    return COQ_DISPATCH % {"root": src_root, "rules": rules, "default": default}
+
+
 COQ = r'''(* regenerated from %(root)s/jinja2/{runtime,environment}.py by gen/imp_translate.py — do not edit *)
 From Coq Require Import List NArith Bool Arith String.
 Import ListNotations.
